@@ -21,6 +21,9 @@ type Config struct {
 	// C13: window of operations whose lower-layer calls are fault-enumerated
 	C13 *c13Config `json:"c13,omitempty"`
 	C03 *c03Config `json:"c03,omitempty"`
+	C04 *c04Config `json:"c04,omitempty"`
+	// C04Replay: [op index, mutating call] of the crash to replay
+	C04Replay []int `json:"c04Replay,omitempty"`
 }
 
 type genState struct {
